@@ -533,6 +533,11 @@ func c46ConcChild(tier string, idx, of int) int {
 		}
 		run.Count("overlapping_op_pairs", int64(ov))
 		res, _ := porcupine.CheckOperationsVerbose(model, ops, 10*time.Second)
+		if res == porcupine.Unknown {
+			// a loaded machine, not a hard history: these checks take milliseconds. Retry with a generous watchdog.
+			run.Count("porcupine_retries_after_timeout", 1)
+			res, _ = porcupine.CheckOperationsVerbose(model, ops, 120*time.Second)
+		}
 		run.Count("porcupine_checks", 1)
 		run.Distinct("conc:" + strings.Join(describeOBOrder(ops), ";"))
 		if idx == 0 && k < 1 {
